@@ -469,9 +469,9 @@ def enumerate_rules(tier, seed):
         for c in sample(itertools.product(full, repeat=2), len(full) ** 2, 0):
             add(fmt, list(c))
         if quick:
-            for c in sample(itertools.product(red, repeat=3), len(red) ** 3, 1200 if fmt != 5 else 300):
+            for c in sample(itertools.product(red, repeat=3), len(red) ** 3, 10000 if fmt != 5 else 2000):
                 add(fmt, list(c))
-            for c in sample(itertools.product(red, repeat=4), len(red) ** 4, 800 if fmt != 5 else 200):
+            for c in sample(itertools.product(red, repeat=4), len(red) ** 4, 6000 if fmt != 5 else 1200):
                 add(fmt, list(c))
         else:
             m3 = full if fmt != 5 else red
@@ -1113,7 +1113,7 @@ def _mix(*xs):
 def enumerate_addr(tier, seed):
     """(definition, k, picker integers) triples in a fixed order"""
     out = []
-    per = 12 if tier != "thorough" else 150
+    per = 120 if tier != "thorough" else 800
     for di in range(len(ADDR_DEFS)):
         for j in range(per):
             out.append((di, 1 + (di + j) % 2, _mix(seed, di, j)))
@@ -1210,9 +1210,9 @@ def campaign(ctx):
         one(make_addr_case(di, Picker(ints), k=k), "addr")
     if ctx.failures:
         return              # the verdict is already red; triage of more failures only costs time
-    n = {"quick": 25, "thorough": 300}[ctx.tier]
+    n = {"quick": 200, "thorough": 2000}[ctx.tier]
     runner.run_hypothesis(ctx, rand_addr(), run_guard_trouble(run), n, label="addr")
-    n = {"quick": 60, "thorough": 1000}[ctx.tier]
+    n = {"quick": 150, "thorough": 1500}[ctx.tier]
     runner.run_hypothesis(ctx, rand_rule(), run_guard_trouble(run), n, label="rule")
 
 
